@@ -927,7 +927,6 @@ func (u *Unit) sortSliceModel(st *State, e *ast.CallExpr, ca callArgs) (Term, bo
 	return Term{Tuple: []Term{}}, true
 }
 
-
 // sortPermFacts (`option sort-perm`): the sorted slice is a permutation of the input, stated with one pair of
 // uninterpreted index maps per sort call (loop-free for E-matching, unlike the exists-based membership axioms):
 // new[a] == old[perm(a)], old[a] == new[inv(a)], both maps stay in range and are inverse to each other.
